@@ -218,6 +218,29 @@ def member(x, v):
     return 0
 
 
+def tuple_dict(a, b):
+    d = {}
+    d[(a, b)] = 7
+    d[(b, a)] = 9
+    return d[(a, b)]
+
+
+def keep_small(x, k):
+    small = [v for v in x if v < k]
+    return len(small)
+
+
+def extend_local(n):
+    xs = []
+    xs.extend(range(1, n + 1))
+    xs.extend(-v for v in range(1, n + 1))
+    return xs
+
+
+def square(t):
+    return t ** 2
+
+
 C = 'conformance/cases.py'
 def fill_table(n, s):
     t = [s]
@@ -259,6 +282,14 @@ def picks(n):
 
 
 CONTRACTS = {
+    # a dict keyed by tuples of ints: the later store wins when the keys coincide
+    (C, 'tuple_dict'): {'params': {'a': 'int', 'b': 'int'}, 'locals': {'d': 'seqmap'}, 'raises': {}, 'returns': 'int',
+                        'ensures': ['(a == b and result == 9) or (a != b and result == 7)']},
+    # [v for v in x if cond]: empty exactly when no element satisfies cond (length otherwise unknown but bounded)
+    (C, 'keep_small'): {'params': {'x': 'intlist', 'k': 'int'}, 'raises': {}, 'returns': 'int',
+                        'ensures': ['0 <= result', 'result <= len(x)', '(result == 0) == forall(lambda j: not (0 <= j and j < len(x)) or x[j] >= k)']},
+    # x**2 is kept symbolic: only linear facts (non-negative, zero only at zero, at least |t|)
+    (C, 'square'): {'params': {'t': 'int'}, 'raises': {}, 'returns': 'int', 'ensures': ['result >= 0', 'result >= t', 'result >= -t', '(result == 0) == (t == 0)']},
     # bisect_left on a sorted list; membership of an int in a list
     (C, 'first_geq'): {'params': {'n': 'int', 's': 'int', 'x': 'int'}, 'requires': ['n >= 0'], 'raises': {}, 'returns': 'int',
                        'loops': {0: {'inv': ['len(t) == _it + 1', 'forall(lambda u: implies(0 <= u and u <= _it, t[u] == s + 2 * u), lambda u: t[u])']}},
@@ -415,5 +446,8 @@ NEGATIVE = {
     (C, 'table_lookup#left'): {'params': {'n': 'int', 's': 'int', 'x': 'int'}, 'requires': ['n >= 1', 'x == s + 2'], 'raises': {}, 'returns': 'int',
                                'loops': {0: {'inv': ['len(t) == _it + 2', 'forall(lambda u: implies(1 <= u and u <= _it + 1, t[u] == s + 2 * (u - 1)), lambda u: t[u])']}},
                                'ensures': ['result == 1']},
+    (C, 'tuple_dict#first'): {'params': {'a': 'int', 'b': 'int'}, 'locals': {'d': 'seqmap'}, 'requires': ['a == b'], 'raises': {}, 'returns': 'int', 'ensures': ['result == 7']},
+    (C, 'keep_small#all'): {'params': {'x': 'intlist', 'k': 'int'}, 'requires': ['len(x) >= 1', 'x[0] >= k'], 'raises': {}, 'returns': 'int', 'ensures': ['result == len(x)']},
+    (C, 'square#linear'): {'params': {'t': 'int'}, 'requires': ['t >= 2'], 'raises': {}, 'returns': 'int', 'ensures': ['result == 2 * t']},
     (C, 'sorted_pair#keep'): {'params': {'a': 'int', 'b': 'int'}, 'requires': ['a > b'], 'raises': {}, 'returns': 'tuple:int,int', 'ensures': ['result[0] == a']},
 }
